@@ -1,10 +1,52 @@
 import Driver.Loop
+import Midgard.Model.RinexNav
+import Midgard.Generated.RinexNavCols
 
-/-! Driver for C12: placeholder until the model is written. -/
+/-! Driver for C12 (RINEX navigation).
+
+    c12 rinex3_nav   <x> <hexfile>       whole file through the RINEX 3 model
+    c12 rinex2_nav   <ext-char> <hexfile>   (system from the last character of the file extension)
+    c12 rinex212_nav <ext-char> <hexfile>
+    c12 float <hex>                      `_float`
+
+Answers: JSON list of `[hex name, kind, values]`, kind `f` (exact rationals / null), `s` (hex text),
+`t` (exact GPS seconds).  `RAISES` = the model says the real code raises. -/
 namespace Driver.C12
+open Midgard.Proto Midgard.Text Midgard.RinexNav
+
+def showCellJ : Cell → String
+  | .num q => "\"" ++ showRat q ++ "\""
+  | .none => "null"
+  | .str s => "\"" ++ encodeHex (asString s) ++ "\""
+  | .time q => "\"" ++ showRat q ++ "\""
+
+def kindOf (k : String) (vs : List Cell) : String :=
+  if k = "time" ∨ k = "toe" ∨ k = "transmission_time" then "t"
+  else if vs.any (fun c => match c with | .str _ => true | _ => false) then "s" else "f"
+
+def showCols (d : Cols) : String :=
+  "[" ++ ",".intercalate (d.map fun (k, vs) =>
+    "[\"" ++ encodeHex k ++ "\",\"" ++ kindOf k vs ++ "\",[" ++ ",".intercalate (vs.map showCellJ) ++ "]]") ++ "]"
+
+def systemOfExt : String → Option String
+  | "n" => some "G" | "g" => some "R" | "l" => some "E" | _ => Option.none
 
 def handle : List String → Option String
-  | _ => none
+  | ["c12", "rinex3_nav", _, h] => do
+    let t ← (decodeHex? h).map ofString
+    pure ((parseV3 Midgard.Generated.RinexNav.v3 t).elim "RAISES" showCols)
+  | ["c12", "rinex2_nav", x, h] => do
+    let t ← (decodeHex? h).map ofString
+    let s ← systemOfExt x
+    pure ((parseV2 Midgard.Generated.RinexNav.v2 s t).elim "RAISES" showCols)
+  | ["c12", "rinex212_nav", x, h] => do
+    let t ← (decodeHex? h).map ofString
+    let s ← systemOfExt x
+    pure ((parseV2 Midgard.Generated.RinexNav.v212 s t).elim "RAISES" showCols)
+  | ["c12", "float", h] => do
+    let t ← (decodeHex? h).map ofString
+    pure ((floatField t).elim "RAISES" showRat)
+  | _ => Option.none
 
 end Driver.C12
 
